@@ -4,9 +4,10 @@ from geom import snap_glyphset
 from ufo import build, rat
 
 ID = "C15"
-PROOF_FILES = ["Geom", "Reverse", "Render", "Flatten", "Propagate", "Transform", "GoodCert", "C15"]
+PROOF_FILES = ["Geom", "Reverse", "Render", "Flatten", "Propagate", "Propagate2", "Transform", "GoodCert", "C15"]
 THEOREM = ("Ufo2ft.C15.* (affine algebra, reversal laws, bake lemma, decompose/flatten render preservation, compensation; "
-           "C15_transform / transform_convex / transform_all: the whole TransformationsFilter maps every included glyph exactly once)")
+           "C15_transform / transform_convex / transform_all: the whole TransformationsFilter maps every included glyph exactly once; "
+           "C15_propagate (+ _placed, _complete, _idempotent, _no_override): the whole PropagateAnchorsFilter satisfies holdsPropagate)")
 N = {"quick": 500, "thorough": 8000}
 RULE = ("random component graphs (depth<=4, shared bases, dyadic affine matrices incl. mirrors, shears, rotations, singular) with "
         "line/curve/qcurve contours on a 1/8 grid, x each filter in {decompose, decomposeTransformed, flatten, transformations, "
@@ -187,7 +188,10 @@ LEVEL_TEXT = ("Proved (Lean, all inputs): fontTools Transform algebra (compose =
               "preservation of decomposition/flattening steps; TransformationsFilter over the whole glyph set (C15_transform: for every "
               "acyclic glyph set, det>0 matrix and convex include set the declarative predicate holds of the model output: outline, "
               "anchors, advance mapped exactly once, bases and composites both included; false without convexity: "
-              "transform_nonconvex_counterexample); the executable models of all five filters are tied to the code point "
+              "transform_nonconvex_counterexample); PropagateAnchorsFilter over the whole glyph set (C15_propagate: for every acyclic "
+              "glyph set, mark list and include predicate holdsPropagate holds of the model output: anchors only appended, every added "
+              "anchor at T(anchor) of a component's base in the final set under its name or name_N, never under a name the glyph had, "
+              "nothing missing on base-only composites, a second run changes nothing); the executable models of all five filters are tied to the code point "
               "for point by the correspondence run, and the declarative render-equality predicate is evaluated on the real output.")
 LEVEL_NOTE = ("Trusted: Lean kernel + standard axioms; correspondence harness and its dyadic generators; Slant (tan) and the mark-ligature "
               "promotion of propagateAnchors (needs outline bounds) are not modelled; TransformationsFilter's include-gap double application "
